@@ -123,7 +123,7 @@ def main():
                 harness_rows.append({
                     "harness": h["name"], "fn": h.get("fn", ""), "class": h["class"], "bound": h.get("bound") or ("cap<=2^40" if "big" in h.get("cfg", "") else None),
                     "status": r["status"], "verdict": r["verdict"], "wall_s": r["wall_s"], "solver_s": round(r.get("solver_time") or 0, 2),
-                    "backend": "kani 0.68.0 / cbmc 6.11.0 / cadical", "obligations": len(c["obligations"]),
+                    "backend": "kani 0.68.0 / cbmc 6.11.0 / " + h.get("solver", "minisat"), "obligations": len(c["obligations"]),
                     "discharged": sum(1 for o in c["obligations"] if o["status"] in ("SUCCESS", "UNREACHABLE")),
                     "expected_panics": c["expected_failures"], "stubs": r.get("stubs", []),
                 })
